@@ -5,8 +5,10 @@ package main
 
 import (
 	"bytes"
+	"encoding/binary"
 	"encoding/hex"
 	"fmt"
+	sms "github.com/hujm2023/go-sms-protocol"
 	"sort"
 	"strings"
 )
@@ -144,6 +146,36 @@ func c01RoundTrip(res *Result, name string, s *shape, r record, ops, goOut *[]st
 		if !sameValue(want[f.path], got[f.path]) {
 			res.Violate(c01Class(name, f.path, s, r), fmt.Sprintf("%s: field %s decoded as %s, encoded from %s", name, f.path, renderValue(got[f.path]), renderValue(want[f.path])), []string{encOp, decOp})
 			return
+		}
+	}
+	// the other way in: the package's dispatcher must give the same PDU, and the value it hands out is kept and
+	// looked at again when the run is over (a dispatcher that decodes into a shared value gives it away there)
+	if df := dispatchFn[pkgOfName(name)]; df != nil {
+		var p2 sms.PDU
+		var derr error
+		in := append([]byte(nil), out...)
+		// the image with the command id this type carries by nature (octets 4..8 of every header), so that the
+		// dispatcher selects it; the record's own command id was free
+		if pd, ok := registry[name]().(sms.PDU); ok && len(in) >= 8 {
+			var nat uint32
+			Guard(func() { nat = pd.GetCommand().ToUint32() })
+			binary.BigEndian.PutUint32(in[4:], nat)
+		}
+		_, gotD, _ := goDec(name, in)
+		if gotD == nil {
+			return
+		}
+		got = gotD
+		if o := Guard(func() { p2, derr = df(in) }); o.Panic != "" || derr != nil || p2 == nil {
+			return // the record's command id is free here, it need not be this type's: which type a command id selects is C10's matter
+		}
+		if cp, ok := p2.(codec); ok && fmt.Sprintf("%T", p2) == fmt.Sprintf("%T", registry[name]()) {
+			viaDispatch := renderRecord(name, snapshot(cp))
+			if viaDispatch != renderRecord(name, got) {
+				res.Violate("C01.dispatcher-decodes-differently:"+name, "the PDU returned by the dispatcher differs from the one IDecode fills", []string{encOp, decOp})
+				return
+			}
+			retainDecoded(name, cp, viaDispatch, decOp)
 		}
 	}
 }
